@@ -243,6 +243,19 @@ func optimizerRecordsReferences(c *Ctx, g *load.G) (bool, string) {
 	}
 	recv, x := recvName(fd), firstParam(fd)
 	paths := c.astNorm().normPaths(fd)
+	// the field that names the rule being visited: the one the Rule case stores the rule's name into
+	cur := "rule"
+	for _, p := range paths {
+		isRule := false
+		for _, e := range p {
+			if e.Kind == "tcase" && strings.HasSuffix(e.Text, ":*Rule") {
+				isRule = true
+			}
+			if isRule && e.Kind == "set" && strings.HasPrefix(e.Text, recv+".") && strings.HasSuffix(e.Text, "="+x+".Name.Val") {
+				cur = strings.TrimSuffix(strings.TrimPrefix(e.Text, recv+"."), "="+x+".Name.Val")
+			}
+		}
+	}
 	n := 0
 	var bad []string
 	for _, p0 := range paths {
@@ -261,8 +274,8 @@ func optimizerRecordsReferences(c *Ctx, g *load.G) (bool, string) {
 		}
 		n++
 		want := map[string]bool{
-			recv + ".ruleUsesRules[" + recv + ".rule][" + x + ".Name.Val]=struct{}{}":   false,
-			recv + ".ruleUsedByRules[" + x + ".Name.Val][" + recv + ".rule]=struct{}{}": false,
+			recv + ".ruleUsesRules[" + recv + "." + cur + "][" + x + ".Name.Val]=struct{}{}":   false,
+			recv + ".ruleUsedByRules[" + x + ".Name.Val][" + recv + "." + cur + "]=struct{}{}": false,
 		}
 		for _, e := range p {
 			if e.Kind == "set" {
